@@ -421,6 +421,24 @@ class _resolve_called_lambdas(ast.NodeTransformer):
                 result = self.visit(lambda_node.body)
                 self._arg_map_list.pop()
                 return result
+            if len(node.keywords) > 0 and len(self._arg_map_list) > 0:
+                # The lambda stays: a keyword that names one of its parameters follows the
+                # parameter when that is renamed.
+                new_func = self.visit(lambda_node)
+                renamed = {
+                    old.arg: new.arg for old, new in zip(lambda_node.args.args, new_func.args.args)
+                }
+                return ast.Call(
+                    func=new_func,
+                    args=[self.visit(a) for a in node.args],
+                    keywords=[
+                        ast.keyword(
+                            arg=renamed.get(k.arg, k.arg) if k.arg is not None else None,
+                            value=self.visit(k.value),
+                        )
+                        for k in node.keywords
+                    ],
+                )
         return self.generic_visit(node)
 
     def _local_names(self, names: List[str]) -> Dict[str, Union[ast.AST, str]]:
